@@ -16,4 +16,8 @@ ConstInit == /\ TTL \in Int /\ MaxNow \in Int /\ Closed \in BOOLEAN
 IndInit == /\ exp \in [Items -> Int] /\ val \in [Items -> Int] /\ lastAdd \in [Items -> Int]
            /\ now \in Int
            /\ IndInv
+
+\* non-vacuity probes (a counterexample is expected): the hypotheses admit 4 items, both conventions, large times
+ProbeClosed == ~(Closed /\ Cardinality(Items) = 4 /\ TTL > 1000 /\ \E i \in Items : Present(i) /\ now > 1000)
+ProbeOpen == ~(~Closed /\ Cardinality(Items) = 4 /\ TTL > 1000 /\ \E i \in Items : Present(i) /\ now > 1000)
 =============================================================================
